@@ -39,3 +39,127 @@ Print Assumptions C12_stats_lists_bounded.
 Theorem C12_queue_unbounded_refuted : forall n, fold_left fq_step (repeat FqEnq n) 0 = Z.of_nat n.
 Proof. intros n. rewrite fq_enq_only. lia. Qed.
 Print Assumptions C12_queue_unbounded_refuted.
+
+(* rtp buffer (NACK responder): at most `size` slots hold a packet, for every sequence of Add *)
+Theorem C12_rtpbuffer_bounded : forall size seqs, 0 < size ->
+  zlen (rb_occ (fold_left rb_add seqs (rb_init size))) <= size.
+Proof. exact rb_bounded. Qed.
+Print Assumptions C12_rtpbuffer_bounded.
+
+(* NACK generator: per stream at most `size` counters, for every history of
+   Bind / Unbind / tick in which a tick reports at most `size` missing numbers
+   (receiveLog.missingSeqNumbers writes into a buffer of `size` entries) *)
+Theorem C12_nackgen_bounded : forall max size ops ssrc m, 0 <= size -> ng_ops_ok size ops ->
+  aget ssrc (ng_logs (fold_left (ng_step max) ops ng_init)) = Some m -> zlen m <= size.
+Proof. intros max size ops ssrc m Hs Hok E. exact (proj2 (ng_run_inv max size ops Hs Hok ssrc m E)). Qed.
+Print Assumptions C12_nackgen_bounded.
+Example C12_nackgen_nonvacuous :
+  ng_ops_ok 64 [NgBind 1; NgTick 1 [5; 7]; NgTick 1 [7]] /\
+  ng_sizes (fold_left (ng_step 2) [NgBind 1; NgTick 1 [5; 7]; NgTick 1 [7]] ng_init) = [1; 1; 1].
+Proof. split; [repeat constructor; cbn; lia|reflexivity]. Qed.
+Print Assumptions C12_nackgen_nonvacuous.
+
+(* rfc8888 stream log: right after a report with a budget of m metric blocks
+   the log holds at most m entries, whatever was received before; between
+   reports it grows by at most one entry per packet *)
+Theorem C12_streamlog_bounded_after_report : forall ops m,
+  zlen (sl_keys (sl_report (fold_left sl_step ops sl_init_st) m)) <= Z.max m 0.
+Proof. intros ops m. apply sl_report_bound, sl_run_inv. Qed.
+Print Assumptions C12_streamlog_bounded_after_report.
+Theorem C12_streamlog_growth_per_packet : forall st s, zlen (sl_keys (sl_add st s)) <= zlen (sl_keys st) + 1.
+Proof. exact sl_add_growth. Qed.
+Print Assumptions C12_streamlog_growth_per_packet.
+
+(* jitter-buffer interceptor, PARTIAL: as long as every read after playout
+   started finds the playout head (jb_all_ok), at most 49 packets stay queued *)
+Theorem C12_jitter_bounded_partial : forall seqs, jb_all_ok jb_init seqs = true ->
+  zlen (jb_q (fold_left jb_read seqs jb_init)) < 50.
+Proof. intros seqs H. apply (jb_bounded_ok seqs jb_init H). cbn. lia. Qed.
+Print Assumptions C12_jitter_bounded_partial.
+Example C12_jitter_bounded_nonvacuous :
+  jb_all_ok jb_init (map (fun k => (65500 + Z.of_nat k) mod 65536) (seq 0 200)) = true.
+Proof. vm_compute. reflexivity. Qed.
+Print Assumptions C12_jitter_bounded_nonvacuous.
+(* ... and REFUTED in general (F31): sequence number 1 is lost; after 0, 2..51
+   the head is stuck at 1 and every further packet (any numbers but 1) stays *)
+Theorem C12_jitter_stuck_refuted : forall l, (forall s, In s l -> s <> 1) ->
+  zlen (jb_q (fold_left jb_read (0 :: zrange 2 50 ++ l) jb_init)) = 50 + zlen l.
+Proof.
+  intros l Hl. change (0 :: zrange 2 50 ++ l) with ((0 :: zrange 2 50) ++ l). rewrite fold_left_app.
+  set (st0 := fold_left jb_read (0 :: zrange 2 50) jb_init).
+  assert (E : st0 = {| jb_q := jb_q st0; jb_emitting := true; jb_ready := true; jb_head := 1; jb_min := 50 |})
+    by (vm_compute; reflexivity).
+  assert (Hn : ~ In 1 (jb_q st0)) by (apply memZ_false; vm_compute; reflexivity).
+  assert (Hz : zlen (jb_q st0) = 50) by (vm_compute; reflexivity).
+  rewrite (jb_stuck l st0); [lia|rewrite E; reflexivity|rewrite E; reflexivity| |].
+  - rewrite E. cbn [jb_head]. rewrite <- E. assumption.
+  - rewrite E. cbn [jb_head]. assumption.
+Qed.
+Print Assumptions C12_jitter_stuck_refuted.
+
+(* flexfec encoder: fewer than NumMediaPackets buffered packets per bound stream ... *)
+Theorem C12_flexfec_bounded : forall numMedia ops s b, 1 <= numMedia ->
+  aget s (fold_left (ff_step numMedia) ops []) = Some b -> 0 <= b < numMedia.
+Proof. intros numMedia ops s b Hm. apply ff_bounded, Hm. Qed.
+Print Assumptions C12_flexfec_bounded.
+(* ... REFUTED for NumMediaPackets(0): n packets written, n buffered *)
+Theorem C12_flexfec_zero_refuted : forall n,
+  aget 1 (fold_left (ff_step 0) (FfBind 1 :: repeat (FfWrite 1) n) []) = Some (Z.of_nat n).
+Proof. intros n. cbn [fold_left ff_step aset]. rewrite (ff_zero_grows n _ 1 0); [f_equal|reflexivity|lia]. Qed.
+Print Assumptions C12_flexfec_zero_refuted.
+
+(* stats interceptor, REFUTED (F38): n streams bound and unbound again leave n recorders *)
+Theorem C12_stats_unbind_refuted : forall n,
+  let st := fold_left si_step (si_churn 1 n) si_init in
+  zlen (si_recorders st) = Z.of_nat n /\ si_bound st = [].
+Proof. intros n. apply (si_churn_grows n 1 si_init); [cbn; tauto|reflexivity]. Qed.
+Print Assumptions C12_stats_unbind_refuted.
+
+(* rtpfb history (with the fixes for F30/F15): the packet map only holds
+   packets sent after the last reported one - PARTIAL: the bound is the number
+   of packets in flight, not a function of the configuration *)
+Theorem C12_rtpfb_bounded_partial : forall ops,
+  let st := fold_left (h_step true) ops h_init in zlen (h_packets st) <= h_counter st - h_next st.
+Proof. exact (h_bounded true). Qed.
+Print Assumptions C12_rtpfb_bounded_partial.
+(* REFUTED when no feedback ever arrives: n packets sent, n records *)
+Theorem C12_rtpfb_no_feedback_refuted : forall n,
+  zlen (h_packets (fold_left (h_step true) (repeat (HAdd 1 0 false 0) n) h_init)) = Z.of_nat n.
+Proof.
+  intros n. pose proof (h_no_feedback true n h_init) as H. cbv zeta in H. rewrite H; [reflexivity|].
+  split; [constructor|split; [cbn; tauto|cbn; lia]].
+Qed.
+Print Assumptions C12_rtpfb_no_feedback_refuted.
+
+(* Unbind / Clear release the per-stream entries *)
+Theorem C12_unbind_releases :
+  (forall max st s, aget s (ng_logs (ng_step max st (NgUnbind s))) = None /\
+                    ~ In s (ng_bound (ng_step max st (NgUnbind s)))) /\
+  (forall st, jb_q (jb_step st JbUnbind) = []) /\
+  (forall numMedia st s, aget s (ff_step numMedia st (FfUnbind s)) = None).
+Proof.
+  split; [|split].
+  - intros max st s. cbn [ng_step ng_logs ng_bound]. split; [rewrite aget_adel, Z.eqb_refl; reflexivity|].
+    intros H. apply delset_In in H. tauto.
+  - reflexivity.
+  - intros numMedia st s. cbn [ff_step]. rewrite aget_adel, Z.eqb_refl. reflexivity.
+Qed.
+Print Assumptions C12_unbind_releases.
+
+(* gcc rate calculator, PARTIAL: after every acknowledgment the oldest retained
+   entry lies within the window of the newest arrival (for non-decreasing
+   arrival times the whole history then lies within the window, so its length
+   is the number of acknowledgments per window - not a function of the
+   configuration alone) *)
+Theorem C12_ratecalc_window_partial : forall w h a,
+  match snd (rc_step w (true, h) a) with [] => True | oldest :: _ => a - w <= oldest end.
+Proof. intros w h a. cbn [rc_step negb snd]. apply rc_drop_head. Qed.
+Print Assumptions C12_ratecalc_window_partial.
+(* REFUTED as a bound: acknowledgments carrying the same arrival time are never dropped *)
+Theorem C12_ratecalc_constant_arrival_refuted : forall w a n, 0 <= w ->
+  zlen (snd (fold_left (rc_step w) (repeat a (S n)) (false, []))) = Z.of_nat (S n).
+Proof.
+  intros w a n Hw. cbn [repeat fold_left]. change (rc_step w (false, []) a) with (true, repeat a 1).
+  rewrite rc_const_grows by assumption. cbn [snd]. unfold zlen. rewrite repeat_length. lia.
+Qed.
+Print Assumptions C12_ratecalc_constant_arrival_refuted.
